@@ -100,7 +100,16 @@ def _run(ev, work, thorough):
     hg, resg = D.export_histories(work, frames="FramesGap", maxops=3, ops="OpsAppend", partitioned="OnlyPartitioned")
     hg = [h for h in hg if any(len(c) == 0 for r in h for c in (r.get("frame") or []))]
     ev.add_tlc("DatasetExport: appends across an empty chunk (gap in the part ids)", resg, histories=len(hg))
-    dh = dh + hl + hg
+    # appends through write(append=True) with a change made through a handle in between (the library must not reuse
+    # what an earlier call learned about the dataset)
+    hm, resm = D.export_histories(work, frames="FramesOne", maxops=4, ops="OpsMixed")
+    hm = [h for h in hm if [r["kind"] for r in h[::2]][1] == "append" and [r["kind"] for r in h[::2]][3] == "append"
+          and [r["kind"] for r in h[::2]][2] in ("wrg", "remove")]
+    if not thorough:
+        hm = hm[::3]
+    ev.add_tlc("DatasetExport: write, append, <write_row_groups | remove_row_groups through a handle>, append", resm,
+               histories=len(hm))
+    dh = dh + hl + hg + hm
     dres = D.run_replays(dh, work)
     dtraces = []
     for hid, r in enumerate(dres):
